@@ -167,7 +167,7 @@ theorem tables_perm_surj (tb : Tables) (row : Nat) (hrow : pomoIdx tb.bs row < f
 sentinel, and a row index whose `pomo_idx` is inside the table (`row < M! · bs`). -/
 theorem rowInst_wf (tb : Tables) (S J : Nat) (flat : Bool) (dur : Nat → Nat → Nat) (row : Nat)
     (hS : 0 < S) (hM : 0 < tb.M) (hJ : 0 < J) (hrow : pomoIdx tb.bs row < fact tb.M)
-    (hd : ∀ j m, j < J → m < tb.M * S → (dur j m : Int) < 999999) : WF (rowInst tb S J flat dur row) :=
+    (hd : ∀ j m, j < J → m < tb.M * S → (dur j m : Int) < -UNSET) : WF (rowInst tb S J flat dur row) :=
   ⟨hS, hM, hJ, tables_perm_lt tb row hrow, hd⟩
 
 /-- **k-major multi-start layout** (`batchify(td, k)` after `reset` with batch size `B`): copy `j` of
@@ -258,7 +258,7 @@ theorem apply_flat_irrelevant (i : Inst) (s : State) (a : Nat) (f : Bool) :
 `u < max_time − min_time` (`torch.randint(low=min_time, high=max_time)`), `max_time` at most the sentinel. -/
 theorem gen_wf (S M J minT maxT : Nat) (u : Nat → Nat → Nat) (perm : Nat → Nat) (flat : Bool)
     (hS : 0 < S) (hM : 0 < M) (hJ : 0 < J) (hperm : ∀ p, p < M → perm p < M)
-    (hmax : maxT ≤ 999999) (hu : ∀ j m, j < J → m < M * S → u j m < maxT - minT) :
+    (hmax : (maxT : Int) ≤ -UNSET) (hu : ∀ j m, j < J → m < M * S → u j m < maxT - minT) :
     WF ⟨S, M, J, genDur minT u, perm, flat⟩ :=
   ⟨hS, hM, hJ, hperm, fun j m hj hm => by
     have := hu j m hj hm
@@ -287,13 +287,31 @@ theorem default_gen_wf (u : Nat → Nat → Nat) (flat : Bool) (bs row : Nat)
     refine rowInst_wf _ _ _ _ _ _ (by decide) hM (by decide) hrow ?_
     intro j m _ _
     have := hu j m
-    have h4 : Params.ffspGenDefaults.getD 4 0 ≤ 999999 := by decide
+    have h4 : ((Params.ffspGenDefaults.getD 4 0 : Nat) : Int) ≤ -UNSET := by decide
     simp only [genDur]; omega
   · intro j m _ _
     have h3 : 1 ≤ Params.ffspGenDefaults.getD 3 0 := by decide
     show 0 < genDur (Params.ffspGenDefaults.getD 3 0) u j m
     simp only [genDur]; omega
 
+
+/-! ### The regenerated tables
+
+`harness/probes/ffsp.py` executes the source text of the class `IndexTables` for 2 stages × 3 machines
+(both `flatten_stages` settings) on every run and writes the three tables into `Generated/Params.lean`.
+The model's index functions reproduce them entry for entry. -/
+
+/-- the instance row `p` of a 2 × 3 env is stepped as (`bs = 1`, so `pomo_idx = row`) -/
+def inst23 (flat : Bool) (p : Nat) : Inst := rowInst ⟨3, 1⟩ 2 1 flat (fun _ _ => 1) p
+
+/-- **Obligation on the regenerated tables**: `stage_table`, `machine_table` and `stage_machine_table`
+(both settings) of the source are the model's `stageOf`, `machineOf`, `stageMachineOf`. -/
+theorem tables_match :
+    (List.range 6).map (stageOf (inst23 false 0)) = Params.ffspTblStage23 ∧
+    (List.range 6).map (fun p => (List.range 6).map (machineOf (inst23 false p))) = Params.ffspTblMachine23 ∧
+    (List.range 6).map (fun p => (List.range 6).map (stageMachineOf (inst23 false p))) = Params.ffspTblStageMachine23 ∧
+    (List.range 6).map (fun p => (List.range 6).map (stageMachineOf (inst23 true p))) = Params.ffspTblStageMachineFlat23 := by
+  decide
 
 /-- Non-vacuity: 3 machines → 6 table rows in `itertools` order; row 7 of a 2-fold replicated batch of 4
 uses table row 1. -/
